@@ -228,6 +228,16 @@ Example C12_ex_write_failure_streamed :
   (existsb is_deadlock tr, existsb is_panic_item tr, map (fun r => snd (fst r)) (results_of tr)) = (false, false, [CEWrite]).
 Proof. vm_compute. reflexivity. Qed.
 
+(* a body reader that fails: the write loop takes the request off the table, answers it (the Ctx is finished: it goes
+   back to the pool), and writes the RST_STREAM(INTERNAL_ERROR) itself - nothing is left on c.out for it to wait for *)
+Example C12_ex_reader_failure :
+  let c := cli_run ex_cfg [] [CEvSubmit 0 (ex_post (CStream [([1; 2], RNil); ([], RFail)] (-1))) true; CEvWLIn; CEvReceive 0] in
+  (map (fun o => match o with COHeaders _ _ _ => 1 | COData _ _ _ => 2 | CORst _ code => 10 + code | COResult _ _ _ _ => 3
+                             | COPoolPut _ => 4 | COBodyClosed _ => 5 | _ => 0 end) (cli_trace c),
+   map (fun r => snd (fst r)) (results_of (cli_trace c)), cc_reqQueued c, cc_outQ c, cc_open c)
+  = ([1; 2; 5; 12; 3; 4], [CEBody], [], [], 0%Z).
+Proof. vm_compute. reflexivity. Qed.
+
 (* the timer answers a request the server never answers *)
 Example C12_ex_timeout :
   map (fun r => snd (fst r))
